@@ -252,6 +252,12 @@ pub fn run(ctx: &Ctx, c: &Case, o: &mut Outcome) {
         Err(pn) => vfail!(o, "{:?} proving entry panicked on a {} request ({} bytes): {}", c.via, inval_name(&c.inval), b.bytes.len(), pn.0),
         Ok(Err(_)) => {
             o.label("outcome/error");
+            // an error is the whole answer: what a refused request leaves in the caller's writer is
+            // not a message in any documented layout (a stream of messages would lose its framing)
+            if !out.is_empty() {
+                vfail!(o, "{:?} proving entry refused a {} request (Err) but had already put {} bytes into the caller's writer", c.via, inval_name(&c.inval), out.len());
+                return;
+            }
             if c.inval == Inval::Valid {
                 vfail!(o, "a valid request was rejected by the {:?} entry (index {}, limit {:?}, mid {:?})", c.via, c.req.index, c.req.limit, c.req.mid);
             }
@@ -312,6 +318,89 @@ pub fn run(ctx: &Ctx, c: &Case, o: &mut Outcome) {
             }
             Ok(Err(e)) => vfail!(o, "after a {} request on the {:?} entry, the valid request on the same instance was refused: {e}", inval_name(&c.inval), c.via),
             Err(pn) => vfail!(o, "after a {} request on the {:?} entry, the valid request on the same instance panicked: {}", inval_name(&c.inval), c.via, pn.0),
+        }
+    }
+}
+
+/// A sequence of proving requests for one registered member, valid and refused ones on any entry
+/// point, all written into ONE writer. What ends up in the writer must be exactly one record in the
+/// documented layout per successful request (288 bytes proof | values, 128 bytes for raw prove) and
+/// nothing for a refused one; every record, cut out of the stream at its computed offset, must be
+/// accepted by verification.
+pub fn run_stream(req: &Req, items: &[(Via, Inval)], o: &mut Outcome) {
+    let world = c01::Case { req: req.clone(), pre: vec![], post: vec![], entry: Entry::FromTree, place: c01::Place::SetLeaf, second: None };
+    let (mut r, m): (RLN, TreeModel) = match c01::build_world(&world) {
+        Ok(x) => x,
+        Err(e) => {
+            vfail!(o, "cannot build the tree: {e}");
+            return;
+        }
+    };
+    let mut sink = gens::Sink::new();
+    // (offset, length, via, request bytes, signal)
+    let mut records: Vec<(usize, usize, Via, Vec<u8>, Vec<u8>)> = vec![];
+    for (k, (via, inval)) in items.iter().enumerate() {
+        let c = Case { req: req.clone(), via: *via, inval: inval.clone(), history: vec![] };
+        let b = build(&c, &m);
+        let before = sink.data.len();
+        let res = match via {
+            Via::Tree => guarded(|| r.generate_rln_proof(gens::rd(&b.bytes), &mut sink).map_err(|e| e.to_string())),
+            Via::Witness => guarded(|| r.generate_rln_proof_with_witness(gens::rd(&b.bytes), &mut sink).map_err(|e| e.to_string())),
+            Via::RawProve => guarded(|| r.prove(gens::rd(&b.bytes), &mut sink).map_err(|e| e.to_string())),
+        };
+        o.evals += 1;
+        let added = sink.data.len() - before;
+        match res {
+            Err(pn) => {
+                vfail!(o, "request {k} of the stream ({via:?}, {}): panicked: {}", inval_name(inval), pn.0);
+                return;
+            }
+            Ok(Err(_)) => {
+                o.label("stream/refused-request");
+                if *inval == Inval::Valid {
+                    vfail!(o, "request {k} of the stream ({via:?}, valid) was refused");
+                    return;
+                }
+                if added != 0 {
+                    vfail!(o, "request {k} of the stream ({via:?}, {}) was refused (Err) but put {added} bytes into the output stream: the stream is no longer a sequence of documented records", inval_name(inval));
+                    return;
+                }
+            }
+            Ok(Ok(())) => {
+                o.label("stream/record-written");
+                let want = if *via == Via::RawProve { 128 } else { 288 };
+                if added != want {
+                    vfail!(o, "request {k} of the stream ({via:?}, {}) succeeded and wrote {added} bytes, the documented record has {want}", inval_name(inval));
+                    return;
+                }
+                records.push((before, added, *via, b.bytes.clone(), b.signal.clone()));
+            }
+        }
+    }
+    for (off, len, via, reqbytes, signal) in records {
+        let rec = &sink.data[off..off + len];
+        let v = match via {
+            Via::Tree => call_verify_rln(&r, &verify_input(rec, &signal)),
+            Via::Witness => call_verify(&r, rec),
+            Via::RawProve => {
+                let pv = guarded(|| rln::protocol::deserialize_witness(&reqbytes).and_then(|(w, _)| rln::protocol::proof_values_from_witness(&w)).map(|v| rln::protocol::serialize_proof_values(&v)).map_err(|e| e.to_string()));
+                match pv {
+                    Ok(Ok(vals)) => {
+                        let mut mm = rec.to_vec();
+                        mm.extend(vals);
+                        call_verify(&r, &mm)
+                    }
+                    other => {
+                        vfail!(o, "prove succeeded but the proof values of the same witness cannot be computed: {other:?}");
+                        return;
+                    }
+                }
+            }
+        };
+        o.evals += 1;
+        if !v.is_true() {
+            vfail!(o, "the record at offset {off} of the output stream ({via:?} entry) is not accepted by verification: {v:?}");
+            return;
         }
     }
 }
